@@ -711,8 +711,16 @@ class CSSParser:
                 _s2 += nth_parts.group('b')
             else:
                 _s2 = '0'
-            s1 = int(_s1, 10)
-            s2 = int(_s2, 10)
+            try:
+                s1 = int(_s1, 10)
+                s2 = int(_s2, 10)
+            except ValueError:
+                # `int()` refuses digit strings beyond the interpreter's conversion limit
+                raise SelectorSyntaxError(
+                    f"Invalid 'nth' value at position {m.start(0)}",
+                    self.pattern,
+                    m.start(0)
+                ) from None
 
         pseudo_sel = mdict['name']
         if postfix == '_child':
